@@ -326,6 +326,10 @@ func RunCuts(out string) {
 				}
 				targets = append(targets, end, end-1, end+1)
 			}
+			// the member appears to end inside or right after its own header
+			for k := int64(1); k <= 45; k++ {
+				targets = append(targets, m.Base+k)
+			}
 			for _, tg := range targets {
 				nb := tg - m.Base - 1
 				if nb < 0 || nb > 0xffff || nb == int64(m.Size-1) {
